@@ -284,9 +284,12 @@ impl<'a, I: TargetDim> PredictInplace<ArrayView2<'a, f64>, Array<f64, I>> for Si
                     self.log.borrow_mut().violations.push("prediction target has wrong number of rows".into());
                     return;
                 }
+                // additive on purpose: the trait contract is `predict = default_target
+                // + predict_inplace`, so a model may rely on the buffer it is handed being
+                // the one its own default_target produced (zeros here)
                 for (mut row, id) in y.axis_iter_mut(Axis(0)).zip(ids) {
                     for (c, v) in row.iter_mut().enumerate() {
-                        *v = pred_val(id, self.fold, self.model, c);
+                        *v += pred_val(id, self.fold, self.model, c);
                     }
                 }
             }
